@@ -564,6 +564,14 @@ def run_case(case, ctx):
                 # is also what a sparse intersection result or a second handle on a backing file has) - clear() must still clear
                 o.elements_added = 0
                 ctx.feat("clear_with_zero_counter_and_cells_set" if t.nonempty else "clear_with_zero_counter")
+            if case.get("zero_before_clear") and t.kind == "cms":
+                # the converse state for a sketch: every cell 0 while the counter is not (an amount at the 32-bit limit added twice
+                # and removed once: the cells stopped at the limit, the counter did not) - clear() must still reset the counter
+                o.clear()
+                o.add(pool[0], 2 ** 31 - 1)
+                o.add(pool[0], 2 ** 31 - 1)
+                o.remove(pool[0], 2 ** 31 - 1)
+                ctx.feat("clear_with_zero_cells_and_counter_set" if not any(o._bins) and o.elements_added else "clear_after_limit_amounts")
             ctx.call(NX, o.clear)
             f = ctx.call(NX, fresh)
             try:
